@@ -85,7 +85,7 @@ def by_step(p, recs):
     # classify drops unknown records; rebuild the mapping record by record
     for r in recs:
         s, u = p.classify([r])
-        if s:
+        if s and s[0] != 'doppel':
             d.setdefault(s[0], []).append(r)
     return d, unknown
 
